@@ -732,4 +732,6 @@ func c13Gen(tier string, seed uint64, out *bufio.Writer) {
 	c13GenKeys(tier, r, out)
 	c13GenValues(tier, r, out)
 	c13GenCheckers(tier, r, out)
+	c13GenContexts(tier, r, out)
+	c13GenSizes(tier, r, out)
 }
